@@ -150,9 +150,22 @@ CONTRACT(PRE_dt_dur_neg_p(dur), POST_dt_dur_neg_p(RV, dur));
 int dt_dcmp(struct dt_d_s d1, struct dt_d_s d2)
 CONTRACT(PRE_dt_dcmp(d1, d2), POST_dt_dcmp(RV, d1, d2));
 
+/* range test through the 4x4 table: 1 iff d1 <= d <= d2 (all of one comparable type), 0 iff outside, -1 iff not comparable */
+#define PRE_dt_d_in_range_p(d, d1, d2) (PRE_dt_dcmp(d, d1) && PRE_dt_dcmp(d, d2))
+#define DKEY(x) ((x).typ == DT_DAISY ? (long long)(x).daisy : (x).typ == DT_YWD ? (long long)(((int)(x).ywd.y * 64 + (int)(x).ywd.c) * 8 + (int)(x).ywd.w) : (long long)GY_d(x) * 512 + GYD_d(x))
+#define POST_dt_d_in_range_p(ret, d, d1, d2) ((ret) == ((DKEY(d1) <= DKEY(d) && DKEY(d) <= DKEY(d2)) ? 1 : 0))
+int dt_d_in_range_p(struct dt_d_s d, struct dt_d_s d1, struct dt_d_s d2)
+CONTRACT(PRE_dt_d_in_range_p(d, d1, d2), POST_dt_d_in_range_p(RV, d, d1, d2));
+
 #define DIFF_T(t) ((t) == DT_YMD || (t) == DT_YD || (t) == DT_DAISY || (t) == DT_LDN || (t) == DT_MDN)
-#define PRE_dt_ddiff(tgt, d1, d2, carry) ((tgt) == DT_DURD && V_d(d1) && V_d(d2) && DIFF_T((d1).typ) && DIFF_T((d2).typ))
-#define POST_dt_ddiff(ret, tgt, d1, d2, carry) ((ret).durtyp == DT_DURD && (ret).dv == AN_d(d2) - AN_d(d1) && (ret).neg == 0 && (ret).fix == 0)
+/* number of Mon-Fri days among day numbers 1..x (day 1 is a Monday) */
+#define W5N(x) (5 * ((x) / 7) + (((x) % 7) < 5 ? ((x) % 7) : 5))
+#define PRE_dt_ddiff(tgt, d1, d2, carry) (((tgt) == DT_DURD || (tgt) == DT_DURBD) && V_d(d1) && V_d(d2) && DIFF_T((d1).typ) && DIFF_T((d2).typ))
+/* DT_DURD: plain difference of day numbers; DT_DURBD: the number of Mon-Fri days in the half-open interval (d1, d2] (negative the other way round) */
+#define POST_dt_ddiff(ret, tgt, d1, d2, carry) \
+	((ret).durtyp == DT_DURD && (ret).neg == 0 && (ret).fix == 0 && \
+	 ((tgt) == DT_DURD ? (ret).dv == AN_d(d2) - AN_d(d1) : \
+	  (AN_d(d2) >= AN_d(d1) ? (ret).dv == W5N(AN_d(d2)) - W5N(AN_d(d1)) : (ret).dv == -(W5N(AN_d(d1)) - W5N(AN_d(d2))))))
 struct dt_ddur_s dt_ddiff(dt_durtyp_t tgttyp, struct dt_d_s d1, struct dt_d_s d2, int carry)
 CONTRACT(PRE_dt_ddiff(tgttyp, d1, d2, carry), POST_dt_ddiff(RV, tgttyp, d1, d2, carry));
 
